@@ -69,12 +69,29 @@ fn lib_derivatives(
             Ok((names, out, d1.unparse().to_string()))
         }};
     }
+    // derivatives are flat expressions with vanished and repeated variables: the owning entry
+    // points must agree bit for bit with the borrowing one
+    macro_rules! go_flat {
+        ($e:expr) => {{
+            let e = $e;
+            let d1 = ex_msg(e.clone().partial(i))?;
+            for p in points {
+                let a = ex_msg(d1.eval(p))?;
+                let b = ex_msg(d1.eval_vec(p.clone())).map_err(|m| format!("eval_vec of the derivative fails: {m}"))?;
+                let c = ex_msg(d1.eval_iter(p.iter().copied())).map_err(|m| format!("eval_iter of the derivative fails: {m}"))?;
+                if a.to_bits() != b.to_bits() && !(a.is_nan() && b.is_nan()) || a.to_bits() != c.to_bits() && !(a.is_nan() && c.is_nan()) {
+                    return Err(format!("derivative `{}` at {p:?}: eval {a}, eval_vec {b}, eval_iter {c}", d1.unparse()));
+                }
+            }
+            go!(e)
+        }};
+    }
     match start {
-        Start::FlatParse => go!(ex_msg(exmex::FlatEx::<f64>::parse(text))?),
-        Start::FlatUnfolded => go!(ex_msg(exmex::FlatEx::<f64>::parse_wo_compile(text))?),
+        Start::FlatParse => go_flat!(ex_msg(exmex::FlatEx::<f64>::parse(text))?),
+        Start::FlatUnfolded => go_flat!(ex_msg(exmex::FlatEx::<f64>::parse_wo_compile(text))?),
         Start::DeepParse => go!(ex_msg(DeepEx::<f64>::parse(text))?),
         Start::FlatToDeep => go!(ex_msg(ex_msg(exmex::FlatEx::<f64>::parse(text))?.to_deepex())?),
-        Start::DeepToFlat => go!(ex_msg(exmex::FlatEx::<f64>::from_deepex(ex_msg(DeepEx::<f64>::parse(text))?))?),
+        Start::DeepToFlat => go_flat!(ex_msg(exmex::FlatEx::<f64>::from_deepex(ex_msg(DeepEx::<f64>::parse(text))?))?),
     }
 }
 
